@@ -66,6 +66,69 @@ REC_KEYS = {
 
 EXTERNAL_TYPES = {}
 
+# ---------------------------------------------------------------------------------------------------- python `ast`
+# The node classes of the running interpreter's `ast` module become *synthetic external classes* 'ast.<Name>' of the
+# class table, generated mechanically from the ASDL signatures in the class docstrings ('Call(expr func, expr* args,
+# keyword* keywords)').  Shape validity assumed (contract of ast.parse): a parsed tree conforms to the ASDL.
+# `constant` (Constant.value): a str, or any non-str constant abstracted to None - sound for code that only tests
+# `type(v) is str` / isinstance(v, str) or uses the value once known to be a str.
+AST_CONSTANT = TOpt(STR)
+
+
+def ast_model():
+    """-> {class name: (base names, {field: type})} for every non-deprecated node class of `ast`"""
+    import ast as _ast
+    import re as _re
+
+    def subs(c):
+        for x in c.__subclasses__():
+            yield x
+            yield from subs(x)
+    classes = [c for c in subs(_ast.AST) if c.__module__ == 'ast' and 'Deprecated' not in (c.__doc__ or '')]
+    names = {c.__name__ for c in classes} | {'AST'}
+    prim = {'identifier': STR, 'string': STR, 'int': INT, 'constant': AST_CONSTANT}
+
+    def fty(t):
+        base, suffix = (t[:-1], t[-1]) if t[-1] in '*?' else (t, '')
+        b = prim[base] if base in prim else TObj('ast.' + base)
+        if base not in prim and base not in names:
+            raise ValueError(f'ast model: unknown ASDL type {base}')
+        return TList(b) if suffix == '*' else (b if isinstance(b, TOpt) else TOpt(b)) if suffix == '?' else b
+    out = {'ast.AST': ([], {})}
+    for c in classes:
+        fields = {}
+        m = _re.match(r'^%s\((.*)\)$' % c.__name__, (c.__doc__ or '').strip())
+        if c._fields:
+            if not m:
+                raise ValueError(f'ast model: no ASDL signature for {c.__name__}')
+            for part in m.group(1).split(','):
+                t, f = part.split()
+                fields[f] = fty(t)
+            if tuple(fields) != tuple(c._fields):
+                raise ValueError(f'ast model: signature of {c.__name__} disagrees with _fields')
+        out['ast.' + c.__name__] = (['ast.' + b.__name__ for b in c.__bases__ if b.__name__ in names], fields)
+    # deprecated read-only aliases of Constant.value still present in this interpreter (application.py reads node.s)
+    for alias in ('s', 'n'):
+        if isinstance(getattr(_ast.Constant, alias, None), property):
+            out['ast.Constant'][1][alias] = AST_CONSTANT
+    return out
+
+
+def _install_ast(world):
+    import ast as _ast
+    from pyvc.classtable import ClassInfo
+    stub = _ast.parse('class _:\n    pass').body[0]
+    for cname, (bases, fields) in ast_model().items():
+        ci = ClassInfo(cname, 'ast', stub)
+        ci.bases = list(bases)
+        world.ct.classes[cname] = ci
+        world.reg.externals[cname] = ClassV(cname)
+        for f, t in fields.items():
+            FIELD_TYPES[(cname, f)] = t
+    ALIASES.update({'AstNode': TObj('ast.AST'), 'AstModule': TObj('ast.Module'), 'AstExpr': TObj('ast.expr'),
+                    'AstStmt': TObj('ast.stmt')})
+    FIELD_TYPES[('ApplicationRules', '_status_tree')] = TOpt(TObj('ast.Module'))
+
 
 def install(world):
     """register builtin-valued externals"""
@@ -73,5 +136,6 @@ def install(world):
     reg.externals['time.monotonic'] = Builtin('ext:time.monotonic')
     reg.externals['time.time'] = Builtin('ext:time.time')
     reg.externals['math.ceil'] = Builtin('ext:math.ceil')
+    _install_ast(world)
     for k, v in dict(CRIT=50, ERRO=40, WARN=30, INFO=20, DEBG=10, TRAC=5, BLAT=3).items():
         reg.externals[f'supervisor.loggers.LevelsByName.{k}'] = v
